@@ -459,6 +459,11 @@ func (h *rtHist) mutate() string {
 				sec, nsec = old.Sec, old.Nsec%999999998+1
 				kind = "retime-ns"
 			}
+			if r.chance(1, 8) && old.Kind != 'd' {
+				// the first second of the epoch and other values a "no time given" test could mistake for unset
+				sec, nsec = []int64{0, 0, 1}[r.intn(3)], 0 // (times before the epoch are clamped by design: not generated)
+				kind = "retime-epoch"
+			}
 			h.inplace(p, func(n *rtNode) { n.Sec, n.Nsec = sec, nsec })
 			return kind + "-" + string(old.Kind)
 		}
